@@ -115,6 +115,10 @@ theorem settle_res (st : SSt) : st.settle.res = st.res ∧ st.settle.defs = st.d
   unfold SSt.settle
   split <;> exact ⟨rfl, rfl, rfl, rfl, rfl⟩
 
+theorem settle_gates (st : SSt) : st.settle.gates = st.gates := by
+  unfold SSt.settle
+  split <;> rfl
+
 theorem settle_env (st : SSt) : st.settle.env = st.env := by
   funext i
   simp only [SSt.env, (settle_res st).2.1, (settle_res st).2.2.1]
@@ -183,10 +187,14 @@ theorem AllOK.mount {st : SSt} (h : AllOK st) (v : SV) : AllOK (st.mount v) := b
   intro r hr
   exact (h r hr).of_env rfl (fun _ _ _ => rfl)
 
+theorem AllOK.openGate {st : SSt} (h : AllOK st) (g : Nat) : AllOK (st.openGate g) :=
+  fun r hr => (h r hr).of_env rfl (fun _ _ _ => rfl)
+
 theorem AllOK.step {st : SSt} (h : AllOK st) (op : SOp) : AllOK (st.step op) := by
   cases op with
   | set id v => exact (h.set id v).settle
   | resolve rid => exact (h.resolve rid).settle
+  | openGate g => exact (h.openGate g).settle
 
 /-- the definitions never change -/
 theorem step_defs (st : SSt) (op : SOp) : (st.step op).defs = st.defs := by
@@ -203,8 +211,8 @@ def PhaseOK (st : SSt) : Prop :=
   ∀ i, st.phase.getD i 0 = 1 → ∃ v kid, st.view = some v ∧ (transitions v).find? (·.1 == i) = some (i, kid) ∧
     pendingIn st kid 0 = true
 
-theorem pendingIn_congr (st st' : SSt) (hr : st'.res = st.res) (he : st'.env = st.env) :
-    ∀ (v : SV) (k : Int), pendingIn st' v k = pendingIn st v k := by
+theorem pendingIn_congr (st st' : SSt) (hr : st'.res = st.res) (he : st'.env = st.env)
+    (hg : st'.gates = st.gates) : ∀ (v : SV) (k : Int), pendingIn st' v k = pendingIn st v k := by
   intro v
   induction v with
   | text s => intro k; rfl
@@ -219,6 +227,7 @@ theorem pendingIn_congr (st st' : SSt) (hr : st'.res = st.res) (he : st'.env = s
   | sus kid _ => intro k; rfl
   | tra i kid _ => intro k; rfl
   | aw rid => intro k; simp only [pendingIn, SSt.isPending, hr]
+  | lw sel => intro k; simp only [pendingIn, SSt.gateOpen, he, hg]
 
 theorem nextPhase_one {ph : Nat} {p : Bool} (h : nextPhase ph p = 1) : p = true := by
   unfold nextPhase at h
@@ -263,7 +272,7 @@ theorem settle_phaseOK {st : SSt} (h : PhaseDom st) : PhaseOK st.settle := by
       have hj := find_fst hf
       subst hj
       refine ⟨v, kid, hv, hf, ?_⟩
-      rw [pendingIn_congr st { st with phase := (List.range st.phase.length).map (phaseAt st v) } rfl rfl]
+      rw [pendingIn_congr st { st with phase := (List.range st.phase.length).map (phaseAt st v) } rfl rfl rfl]
       exact nextPhase_one hi
 
 theorem PhaseOK.dom {st : SSt} (h : PhaseOK st) : PhaseDom st :=
@@ -281,6 +290,7 @@ theorem step_phaseOK {st : SSt} (h : PhaseDom st) (op : SOp) : PhaseOK (st.step 
   cases op with
   | set id v => exact settle_phaseOK (h.of_eq rfl rfl)
   | resolve rid => exact settle_phaseOK (h.of_eq rfl rfl)
+  | openGate g => exact settle_phaseOK (h.of_eq rfl rfl)
 
 theorem mount_phaseOK (st : SSt) (v : SV) : PhaseOK (st.mount v) := by
   unfold SSt.mount
@@ -296,26 +306,70 @@ theorem mount_phaseOK (st : SSt) (v : SV) : PhaseOK (st.mount v) := by
 /-! nothing pending: no boundary shows its fallback -/
 
 theorem pendingIn_none (st : SSt) (hn : ∀ r ∈ st.res, r.pending = false) :
-    ∀ (v : SV) (k : Int), pendingIn st v k = false := by
+    ∀ (v : SV) (k : Int), lwClosed st v k = false → pendingIn st v k = false := by
   intro v
   induction v with
-  | text s => intro k; rfl
-  | unit => intro k; rfl
-  | elem tag attrs kid ih => intro k; simp only [pendingIn, ih]
-  | seq a b iha ihb => intro k; simp only [pendingIn, iha, ihb, Bool.or_self]
-  | dynText e => intro k; rfl
-  | either c a b iha ihb => intro k; simp only [pendingIn, iha, ihb, ite_self]
-  | «show» c a b iha ihb => intro k; simp only [pendingIn, iha, ihb, ite_self]
-  | forKeyed sel lists => intro k; rfl
-  | forRows sel lists row ih => intro k; simp [pendingIn, ih]
-  | sus kid _ => intro k; rfl
-  | tra i kid _ => intro k; rfl
+  | text s => intro k _; rfl
+  | unit => intro k _; rfl
+  | elem tag attrs kid ih => intro k h; simp only [lwClosed] at h; simp only [pendingIn, ih k h]
+  | seq a b iha ihb =>
+    intro k h
+    simp only [lwClosed, Bool.or_eq_false_iff] at h
+    simp only [pendingIn, iha k h.1, ihb k h.2, Bool.or_self]
+  | dynText e => intro k _; rfl
+  | either c a b iha ihb =>
+    intro k h
+    simp only [lwClosed] at h
+    simp only [pendingIn]
+    split at h
+    · next hc => simp only [hc, if_true]; exact iha 0 h
+    · next hc => simp only [hc, if_false]; exact ihb 0 h
+  | «show» c a b iha ihb =>
+    intro k h
+    simp only [lwClosed] at h
+    simp only [pendingIn]
+    split at h
+    · next hc => simp only [hc, if_true]; exact iha 0 h
+    · next hc => simp only [hc, if_false]; exact ihb 0 h
+  | forKeyed sel lists => intro k _; rfl
+  | forRows sel lists row ih =>
+    intro k h
+    simp only [lwClosed, List.any_eq_false] at h
+    simp only [pendingIn, List.any_eq_false]
+    intro x hx
+    simpa using ih (x : Int) (by simpa using h x hx)
+  | sus kid _ => intro k _; rfl
+  | tra i kid _ => intro k _; rfl
   | aw rid =>
-    intro k
+    intro k _
     simp only [pendingIn, SSt.isPending]
     cases h : st.res[rid]? with
     | none => rfl
     | some r => simp [hn r (List.mem_of_getElem? h)]
+  | lw sel => intro k h; exact h
+
+/-- the views below the `<Transition>`s of a view have no closed gate if the view has none -/
+theorem lwClosed_transitions (st : SSt) : ∀ (v : SV), lwClosed st v 0 = false →
+    ∀ i kid, (i, kid) ∈ transitions v → lwClosed st kid 0 = false := by
+  intro v
+  induction v with
+  | elem tag attrs kid ih => intro h i k hm; simp only [lwClosed] at h; exact ih h i k (by simpa [transitions] using hm)
+  | seq a b iha ihb =>
+    intro h i k hm
+    simp only [lwClosed, Bool.or_eq_false_iff] at h
+    simp only [transitions, List.mem_append] at hm
+    rcases hm with hm | hm
+    · exact iha h.1 i k hm
+    · exact ihb h.2 i k hm
+  | sus kid ih => intro h i k hm; simp only [lwClosed] at h; exact ih h i k (by simpa [transitions] using hm)
+  | tra j kid ih =>
+    intro h i k hm
+    simp only [lwClosed] at h
+    simp only [transitions, List.mem_cons] at hm
+    rcases hm with hm | hm
+    · have := (Prod.mk.inj hm).2; rw [this]; exact h
+    · exact ih h i k hm
+  | _ => intro _ i k hm; simp [transitions] at hm
 
 theorem lastOf_loaded {st : SSt} (hok : AllOK st) (hn : ∀ r ∈ st.res, r.pending = false) (rid : Nat) :
     st.lastOf rid = ((st.res[rid]?).map fun r => Reactive.evalPure st.env r.body).getD 0 := by
@@ -328,34 +382,61 @@ theorem lastOf_loaded {st : SSt} (hok : AllOK st) (hn : ∀ r ∈ st.res, r.pend
     have hc := (hok r hr).cur hd.1
     simp [hd.2, hc.1]
 
-theorem renderS_loaded {st : SSt} (hok : AllOK st) (hph : PhaseOK st) (hn : ∀ r ∈ st.res, r.pending = false) :
-    ∀ (v : SV) (k : Int), renderS st v k = renderLoaded st v k := by
+theorem renderS_loaded {st : SSt} (hok : AllOK st) (hn : ∀ r ∈ st.res, r.pending = false)
+    (hph : ∀ i, st.phase.getD i 0 ≠ 1) :
+    ∀ (v : SV) (k : Int), lwClosed st v k = false → renderS st v k = renderLoaded st v k := by
   intro v
   induction v with
-  | text s => intro k; rfl
-  | unit => intro k; rfl
-  | elem tag attrs kid ih => intro k; simp only [renderS, renderLoaded, ih]
-  | seq a b iha ihb => intro k; simp only [renderS, renderLoaded, iha, ihb]
-  | dynText e => intro k; rfl
-  | either c a b iha ihb => intro k; simp only [renderS, renderLoaded, iha, ihb]
-  | «show» c a b iha ihb => intro k; simp only [renderS, renderLoaded, iha, ihb]
-  | forKeyed sel lists => intro k; rfl
-  | forRows sel lists row ih => intro k; simp only [renderS, renderLoaded, ih]
+  | text s => intro k _; rfl
+  | unit => intro k _; rfl
+  | elem tag attrs kid ih => intro k h; simp only [lwClosed] at h; simp only [renderS, renderLoaded, ih k h]
+  | seq a b iha ihb =>
+    intro k h
+    simp only [lwClosed, Bool.or_eq_false_iff] at h
+    simp only [renderS, renderLoaded, iha k h.1, ihb k h.2]
+  | dynText e => intro k _; rfl
+  | either c a b iha ihb =>
+    intro k h
+    simp only [lwClosed] at h
+    simp only [renderS, renderLoaded]
+    split at h
+    · next hc => simp only [hc, if_true]; exact iha 0 h
+    · next hc => simp only [hc, if_false]; exact ihb 0 h
+  | «show» c a b iha ihb =>
+    intro k h
+    simp only [lwClosed] at h
+    simp only [renderS, renderLoaded]
+    split at h
+    · next hc => simp only [hc, if_true]; exact iha 0 h
+    · next hc => simp only [hc, if_false]; exact ihb 0 h
+  | forKeyed sel lists => intro k _; rfl
+  | forRows sel lists row ih =>
+    intro k h
+    simp only [lwClosed, List.any_eq_false] at h
+    simp only [renderS, renderLoaded]
+    congr 1
+    have : ∀ (l : List Nat), (∀ x ∈ l, lwClosed st row (x : Int) = false) →
+        l.flatMap (fun (k : Nat) => [Tok.open "li" [], Tok.text (Txt.lit (toString k))] ++ renderS st row (k : Int) ++ [Tok.close]) =
+        l.flatMap (fun (k : Nat) => [Tok.open "li" [], Tok.text (Txt.lit (toString k))] ++ renderLoaded st row (k : Int) ++ [Tok.close]) := by
+      intro l
+      induction l with
+      | nil => intro _; rfl
+      | cons x l ihl =>
+        intro hx
+        simp only [List.flatMap_cons]
+        rw [ih (x : Int) (hx x (by simp)), ihl (fun y hy => hx y (by simp [hy]))]
+    exact this _ (fun x hx => by simpa using h x hx)
   | sus kid ih =>
-    intro k
-    simp only [renderS, renderLoaded, pendingIn_none st hn, Bool.false_eq_true, if_false, ih]
+    intro k h
+    simp only [lwClosed] at h
+    simp only [renderS, renderLoaded, pendingIn_none st hn kid k h, Bool.false_eq_true, if_false, ih k h]
   | tra i kid ih =>
-    intro k
-    have hne : (st.phase.getD i 0 == 1) = false := by
-      cases hp : (st.phase.getD i 0 == 1) with
-      | false => rfl
-      | true =>
-        exfalso
-        obtain ⟨_, kid', _, _, hpend⟩ := hph i (by simpa using hp)
-        rw [pendingIn_none st hn] at hpend
-        cases hpend
-    simp only [renderS, renderLoaded, hne, Bool.false_eq_true, if_false, ih]
-  | aw rid => intro k; simp only [renderS, renderLoaded, lastOf_loaded hok hn]
+    intro k h
+    simp only [lwClosed] at h
+    have hne : (st.phase.getD i 0 == 1) = false := by simpa using hph i
+    simp only [renderS, renderLoaded, hne, Bool.false_eq_true, if_false, ih k h]
+  | aw rid => intro k _; simp only [renderS, renderLoaded, lastOf_loaded hok hn]
+  | lw sel => intro k _; rfl
 
 /-- well-formed: the fetchers read signals only -/
 def SProg.wf (p : SProg) : Bool := p.bodies.all (sigsOnly p.defs)
@@ -396,14 +477,21 @@ theorem run_ok (p : SProg) (hw : p.wf = true) : ∀ (ops : List SOp), AllOK (p.r
 
 /-- **C04 for suspense boundaries, loaded state**: after any history of signal writes and completions of fetches
 (reloads that overlap, complete in any order, are superseded while in flight), whenever no resource has a
-fetch in flight the DOM of the mounted view has no fallback in it and every `Suspend` leaf shows the value its
-resource's fetcher gives for the CURRENT signals — the view as if nothing had ever been pending -/
+fetch in flight (and every `Suspend` over a plain future selects an opened gate) the DOM of the mounted view has
+no fallback in it and every `Suspend` leaf shows the value its resource's fetcher / its gate gives for the CURRENT
+signals — the view as if nothing had ever been pending -/
 theorem C04_suspense_loaded (p : SProg) (hw : p.wf = true) (ops : List SOp)
-    (hn : ∀ r ∈ (p.run ops).res, r.pending = false) (hd : (p.run ops).disposed = false) :
+    (hn : ∀ r ∈ (p.run ops).res, r.pending = false) (hg : lwClosed (p.run ops) p.view 0 = false)
+    (hd : (p.run ops).disposed = false) :
     (p.run ops).dom = renderLoaded (p.run ops) p.view 0 := by
   obtain ⟨hok, hph, hv⟩ := run_ok p hw ops
   simp only [SSt.dom, hd, Bool.false_eq_true, if_false, hv]
-  exact renderS_loaded hok hph hn p.view 0
+  refine renderS_loaded hok hn (fun i hi => ?_) p.view 0 hg
+  obtain ⟨v, kid, hv', hf, hpend⟩ := hph i hi
+  rw [hv] at hv'; cases hv'
+  have hm : (i, kid) ∈ transitions p.view := List.mem_of_find?_eq_some hf
+  rw [pendingIn_none _ hn kid 0 (lwClosed_transitions _ p.view hg i kid hm)] at hpend
+  cases hpend
 
 /-- … and while something below it is pending, a `<Suspense>` shows its fallback (the spec, by definition) -/
 theorem C04_suspense_pending (st : SSt) (kid : SV) (k : Int) (h : pendingIn st kid k = true) :
